@@ -131,8 +131,10 @@ def f_vtiles(tag):
 
     ky = Int(f"{tag}_ky", 1, 2)
     ky = ky.__index__() if isinstance(ky, symx.Sym) else ky
+    kx = Int(f"{tag}_kx", 1, 2)  # the number of chunks differs per axis and per value: (2,1) against (1,2) too
+    kx = kx.__index__() if isinstance(kx, symx.Sym) else kx
     chy = tuple(Int(f"{tag}_cy{i}", 1, 1000) for i in range(ky))
-    chx = tuple(Int(f"{tag}_cx{i}", 1, 1000) for i in range(2))
+    chx = tuple(Int(f"{tag}_cx{i}", 1, 1000) for i in range(kx))
     return roi.VariableSizedTiles((chy, chx))
 
 
@@ -191,10 +193,13 @@ def f_gbt_var(tag):
 
     import odc.geo.geobox as gbx
 
-    chy = tuple(Int(f"{tag}_cy{i}", 1, 1000) for i in range(2))
-    chx = tuple(Int(f"{tag}_cx{i}", 1, 1000) for i in range(2))
+    ky = Int(f"{tag}_ky", 1, 2)
+    ky = ky.__index__() if isinstance(ky, symx.Sym) else ky
+    kx = 3 - ky  # (2 chunks, 1 chunk) against (1 chunk, 2 chunks): same numbers, another split
+    chy = tuple(Int(f"{tag}_cy{i}", 1, 1000) for i in range(ky))
+    chx = tuple(Int(f"{tag}_cx{i}", 1, 1000) for i in range(kx))
     A = Affine(rconst(F(10)), 0.0, Real(f"{tag}_c"), 0.0, rconst(F(-10)), Real(f"{tag}_f"))
-    g = gbx.GeoBox((chy[0] + chy[1], chx[0] + chx[1]), A, "epsg:3857")
+    g = gbx.GeoBox((symx.s_sum(chy), symx.s_sum(chx)), A, "epsg:3857")
     return gbx.GeoboxTiles(g, (chy, chx))
 
 
